@@ -87,6 +87,12 @@ func (p *Reader) ReadCStringN(n int) string {
 		return ""
 	}
 
+	// check before allocating: n may come straight from an unverified length field
+	if n > p.buffer.Len() {
+		p.opError = newPacketError(fmt.Errorf("want %d bytes, only %d left", n, p.buffer.Len()), "ReadCStringN")
+		return ""
+	}
+
 	temp := make([]byte, n)
 
 	r, err := p.buffer.Read(temp)
@@ -113,6 +119,12 @@ func (p *Reader) ReadCStringNWithoutTrim(n int) string {
 	}
 
 	if n <= 0 {
+		return ""
+	}
+
+	// check before allocating: n may come straight from an unverified length field
+	if n > p.buffer.Len() {
+		p.opError = newPacketError(fmt.Errorf("want %d bytes, only %d left", n, p.buffer.Len()), "ReadCStringNWithoutTrim")
 		return ""
 	}
 
@@ -155,6 +167,12 @@ func (p *Reader) ReadNBytes(n int) []byte {
 	}
 
 	if n <= 0 {
+		return nil
+	}
+
+	// check before allocating: n may come straight from an unverified length field
+	if n > p.buffer.Len() {
+		p.opError = newPacketError(fmt.Errorf("want %d bytes, only %d left", n, p.buffer.Len()), "ReadNBytes")
 		return nil
 	}
 
